@@ -315,8 +315,36 @@ def _try(src, exp):
             "replay_kind": "rows", "sql": sql}
 
 
+# the labels of the result columns (C09: a column renamed only by letter case carries the new spelling, in the result and in the CTE an outer SELECT reads by that name)
+LABEL_CASES = [
+    ("from a\nselect {Id = id, X = x, t}\n", ["Id", "X", "t"]),
+    ("from a\nselect {Id = id, X = x, t}\ntake 2\nfilter t > 0\nselect {Id, X}\n", ["Id", "X"]),
+]
+
+
+def _try_labels(src, labels):
+    import sqlite3
+    import replaylib
+    ok, sql = replaylib.compile_prql(src, "sql.sqlite")
+    if not ok:
+        return {"input": src, "expected": labels, "observed": sql[:300], "failing": True, "replay_kind": "labels"}
+    con = sqlite3.connect(":memory:")
+    con.executescript(SETUP)
+    try:
+        cur = con.execute(sql)
+        got = [d[0] for d in cur.description]
+    except Exception as e:
+        got = "sqlite error: %r\n%s" % (e, sql[:300])
+    return {"input": src, "expected": labels, "observed": got, "failing": got != labels, "replay_kind": "labels", "sql": sql}
+
+
 def replay(failure):
     lab = failure.get("obligation", "").split(".", 1)[-1]
+    if lab.startswith("SS2"):
+        for src, labels in LABEL_CASES:
+            r = _try_labels(src, labels)
+            if r["failing"]:
+                return r
     for src, exp in (ALIAS_CASES + CASES if lab.startswith("SS2") else CASES + ALIAS_CASES):
         r = _try(src, exp)
         if r["failing"]:
@@ -325,6 +353,8 @@ def replay(failure):
 
 
 def rerun(doc):
+    if doc.get("replay_kind") == "labels":
+        return _try_labels(doc["input"], doc["expected"])
     return _try(doc["input"], [tuple(r) for r in doc["expected"]])
 
 
@@ -339,6 +369,10 @@ def sweep():
         out.append(r)
     for src, exp in ALIAS_CASES:
         r = _try(src, exp)
+        r["obligation"] = "select_shape.SS2a"
+        out.append(r)
+    for src, labels in LABEL_CASES:
+        r = _try_labels(src, labels)
         r["obligation"] = "select_shape.SS2a"
         out.append(r)
     return out
